@@ -539,6 +539,15 @@ class ClientResponse(HeadersMixin):
                 if self._continue is not None:
                     set_result(self._continue, True)
                     self._continue = None
+                elif (
+                    self._writer is None
+                    and not protocol.is_eof()  # type: ignore[union-attr]
+                    and not len(protocol)  # type: ignore[arg-type]
+                ):
+                    # The interim response disarmed the read timeout but
+                    # the request is sent and the final response is still
+                    # to come, so keep enforcing sock_read while waiting.
+                    protocol.start_timeout()  # type: ignore[union-attr]
 
         # payload eof handler
         payload.on_eof(self._response_eof)
@@ -1489,6 +1498,9 @@ class ClientRequest(ClientRequestBase):
             writer.send_headers()
             try:
                 await writer.drain()
+                # Enforce sock_read while waiting for the server's answer
+                if conn.protocol is not None:
+                    conn.protocol.start_timeout()
                 await self._continue
             except asyncio.CancelledError:
                 # Body hasn't been sent, so connection can't be reused
